@@ -102,14 +102,20 @@ def split_config(h, mesh, spec, free=None, prior=None):
         # ---- coupled assembly == block matrix of the separately assembled component forms -------------------------------------
         dt = object if h.sym_mode else np.float64
 
-        def full(*args):
-            w = args[-1]
+        def _full(*args):
             us, vs = args[:nc], args[nc:2 * nc]
             tot = 0
             for i in range(nc):
                 for j in range(nc):
                     tot = tot + COEF[i][j] * pair(us[j], vs[i])
             return tot
+        # Form.block counts the arguments of the integrand: explicit arity
+        if nc == 2:
+            full = lambda u0, u1, v0, v1, w: _full(u0, u1, v0, v1, w)
+        elif nc == 3:
+            full = lambda u0, u1, u2, v0, v1, v2, w: _full(u0, u1, u2, v0, v1, v2, w)
+        else:
+            raise Skip('more than three components')
         F = S.BilinearForm(full, dtype=dt)
         A = dense_from_coo(h, F.elemental(basis))
         for i in range(nc):
@@ -199,8 +205,8 @@ def coo_config(h, mesh, trial, test, free=None, inverse=True):
                 ok_shape = lk.shape in ((edv.shape[0], edu.shape[0]), (edu.shape[0], edv.shape[0]))
                 for i in range(edv.shape[0]):
                     for j in range(edu.shape[0]):
-                        # tolocal stores local matrices with the layout of local_shape = (Nbfun_test, Nbfun_trial)
-                        h.zero('cell %d: tolocal[%d,%d] scatters to the global entry' % (k, i, j), lk[i, j] - Ak[edv[i, k], edu[j, k]]
+                        # tolocal()[k][j, i]: trial function j, test function i (the layout of the elemental data)
+                        h.zero('cell %d: tolocal[trial %d, test %d] scatters to the global entry' % (k, j, i), lk[j, i] - Ak[edv[i, k], edu[j, k]]
                                if len({(edv[a, k], edu[b, k]) for a in range(edv.shape[0]) for b in range(edu.shape[0])}) == edv.shape[0] * edu.shape[0] else 0 * lk[i, j])
         back = C.fromlocal(loc)
         h.equal('fromlocal(tolocal(C)).data == C.data', np.asarray(back.data), np.asarray(C.data))
@@ -223,7 +229,7 @@ def coo_config(h, mesh, trial, test, free=None, inverse=True):
                 h.equal('cell %d: tolocal(C.inverse()) @ tolocal(C) == I' % k, P, np.eye(n) + 0 * P)
             if h.sym_mode and n > 1:
                 h.canary('canary: inverse of the transposed local matrix', np.array(
-                    [sum(li[0][0, a] * loc[0][1, a] for a in range(n))], dtype=object))
+                    [sum(li[0][0, a] * loc[0][0, a] for a in range(n)) - 1], dtype=object))
 
 
 def build_configs(tier, seed):
@@ -240,24 +246,26 @@ def build_configs(tier, seed):
           ([] if quick else ['ElementComposite(ElementVector(ElementTriP2()), ElementTriP1())', 'ElementComposite(ElementTriP1(), ElementTriP2())',
                              'ElementComposite(ElementTriP2(), ElementTriP1(), ElementTriP0())', 'ElementVector(ElementTriP1(), 3)'])
     for spec in tri:
-        add('split/tri2/%s' % spec.replace(' ', ''), split_config, mesh='tri2', spec=spec)
+        # index plumbing does not depend on the geometry: one free vertex (quick), all symbolic (thorough)
+        add('split/tri2/%s' % spec.replace(' ', ''), split_config, mesh='tri2', spec=spec, free=[3] if quick else None)
     # history: same DOF totals, different distribution over the components
     add('split/tri2/P1xN1-after-N1xP1', split_config, mesh='tri2', spec='ElementComposite(ElementTriP1(), ElementTriN1())',
-        prior='ElementComposite(ElementTriN1(), ElementTriP1())')
+        prior='ElementComposite(ElementTriN1(), ElementTriP1())', free=[3])
     add('split/tri2/P1xP2-after-P2xP1', split_config, mesh='tri2', spec='ElementComposite(ElementTriP1(), ElementTriP2())',
-        prior='ElementComposite(ElementTriP2(), ElementTriP1())')
-    add('split/quad2/Q2xQ1', split_config, mesh='quad2', spec='ElementComposite(ElementQuad2(), ElementQuad1())', free=[2])
+        prior='ElementComposite(ElementTriP2(), ElementTriP1())', free=[3])
+    add('split/quad2/Q2xQ1', split_config, mesh='quad2', spec='ElementComposite(ElementQuad2(), ElementQuad1())', free='none' if quick else [2])
     add('split/line3perm/P2xP1', split_config, mesh='line3perm', spec='ElementComposite(ElementLineP2(), ElementLineP1())')
     # 3-D: edge DOFs in components after the first
     tet = ['ElementComposite(ElementTetP2(), ElementTetP2())', 'ElementComposite(ElementTetN1(), ElementTetP2())',
            'ElementComposite(ElementVector(ElementTetP2()), ElementTetP1())', 'ElementComposite(ElementTetRT1(), ElementTetP0())'] + \
           ([] if quick else ['ElementComposite(ElementTetRT1(), ElementTetN1(), ElementTetP2())', 'ElementVector(ElementTetP2())'])
     for spec in tet:
-        add('split/tet1/%s' % spec.replace(' ', ''), split_config, mesh='tet1', spec=spec, free=[3], timeout=900 if quick else 3000)
-    add('split/hex1/HexS2xHex1', split_config, mesh='hex1', spec='ElementComposite(ElementHexS2(), ElementHex1())', free='none', timeout=900 if quick else 3000)
+        add('split/tet1/%s' % spec.replace(' ', ''), split_config, mesh='tet1', spec=spec, free='none' if quick else [3], timeout=900 if quick else 3000)
+    if not quick:
+        add('split/hex1/HexS2xHex1', split_config, mesh='hex1', spec='ElementComposite(ElementHexS2(), ElementHex1())', free='none', timeout=900 if quick else 3000)
     # partitions of the cells
     add('partition/tri3fan/ElementTriP2', partition_config, mesh='tri3fan', spec='ElementTriP2')
-    add('partition/tri3fan/P2xP1', partition_config, mesh='tri3fan', spec='ElementComposite(ElementTriP2(), ElementTriP1())', free=[1, 4])
+    add('partition/tri3fan/P2xP1', partition_config, mesh='tri3fan', spec='ElementComposite(ElementTriP2(), ElementTriP1())', free='none' if quick else [1, 4])
     add('partition/line3perm/ElementLineP2', partition_config, mesh='line3perm', spec='ElementLineP2')
     if not quick:
         add('partition/tri4patch/ElementTriP1', partition_config, mesh='tri4patch', spec='ElementTriP1')
@@ -266,7 +274,7 @@ def build_configs(tier, seed):
     for mesh, tr, te in [('tri2', 'ElementTriP1', 'ElementTriP1'), ('tri2', 'ElementTriP2', 'ElementTriP1'), ('tri2', 'ElementTriP1', 'ElementTriP2'),
                          ('line3perm', 'ElementLineP1', 'ElementLineP1'), ('line3perm', 'ElementLineP2', 'ElementLineP1'),
                          ('quad2', 'ElementQuad1', 'ElementQuad1'), ('tet2', 'ElementTetP1', 'ElementTetP1')]:
-        add('coo/%s/%s-%s' % (mesh, tr, te), coo_config, mesh=mesh, trial=tr, test=te, free=([2] if mesh == 'quad2' else ([0] if mesh == 'tet2' else None)),
+        add('coo/%s/%s-%s' % (mesh, tr, te), coo_config, mesh=mesh, trial=tr, test=te, free=(('none' if quick else [2]) if mesh == 'quad2' else ([0] if mesh == 'tet2' else None)),
             timeout=900 if quick else 3000)
     add('coo/tri2/ElementTriP0-ElementTriP0', coo_config, mesh='tri2', trial='ElementTriP0', test='ElementTriP0')
     return cfgs
